@@ -414,22 +414,46 @@ class WebSocketTemporaryHandler(object):
             self._writeFrame(frame)
         self.closed = True
 
+    def _frameAvailable(self):
+        """ test if the buffer holds at least one complete frame """
+        buf = self._buffer.buf
+        if len(buf) < 2:
+            return False
+        size = 2
+        length = buf[1] & 0x7F
+        if length == 126:
+            if len(buf) < 4:
+                return False
+            length, = struct.unpack("!H", buf[2:4])
+            size = 4
+        elif length == 127:
+            if len(buf) < 10:
+                return False
+            length, = struct.unpack("!Q", buf[2:10])
+            size = 10
+        if buf[1] & 0x80:
+            size += 4
+        return len(buf) >= size + length
+
     def __call__(self, data):
         self._buffer._push(data)
 
-        frame = self._readFrame()
+        # a tcp read may hold part of a frame or several frames
+        while self._frameAvailable():
 
-        if not frame.flags.mask:
-            raise Exception("client mask bit not set")
+            frame = self._readFrame()
 
-        if frame.flags.opcode == WebSocketOpCode.Text:
-            frame.payload = frame.payload.decode("utf-8")
+            if not frame.flags.mask:
+                raise Exception("client mask bit not set")
 
-        # TODO: catch and close?
-        self._endpt.callback(self, frame.flags.opcode, frame.payload)
+            if frame.flags.opcode == WebSocketOpCode.Text:
+                frame.payload = frame.payload.decode("utf-8")
 
-        if frame.flags.opcode == WebSocketOpCode.Close:
-            self.close()
+            # TODO: catch and close?
+            self._endpt.callback(self, frame.flags.opcode, frame.payload)
+
+            if frame.flags.opcode == WebSocketOpCode.Close:
+                self.close()
 
 def get(path):
     """decorator which registers a class method as a GET handler
